@@ -105,6 +105,13 @@ def sub_names(ctx, shard, n):
     if shard == 0:
         ctx.exhaustive("names: letter x all accidental strings (all orders)", "length <= %d" % k, len(names))
     ctx.enumerate("name", check_name, _shard(names, shard, n))
+    if shard == 0:
+        # long one-sided spellings: every letter with 1..72 sharps or flats (net accidentals through several octave wraps),
+        # and the same with one opposite accidental inserted in the middle
+        long = T.unmixed_names(72)
+        long += [nm[:len(nm) // 2 + 1] + ("b" if "#" in nm else "#") + nm[len(nm) // 2 + 1:] for nm in long if len(nm) > 12]
+        ctx.exhaustive("names: letter x n sharps | n flats (and one opposite accidental in the middle)", "n <= 72", len(long))
+        ctx.enumerate("name", check_name, long)
 
 
 def sub_names_long(ctx, shard, n):
